@@ -47,7 +47,7 @@ type RS struct {
 }
 
 // NumHidden is the number of hidden perturbations per module (0 = none).
-var NumHidden = []int{16, 2, 6, 9, 3, 4}
+var NumHidden = []int{16, 2, 7, 9, 3, 4}
 
 // ID encodes the rule's content class (module, resource, variant) and its table index. Rule
 // managers reuse the controller (and the rule object) of an earlier load for a rule that is
@@ -231,6 +231,11 @@ func BuildHotspot(r RS) *hotspot.Rule {
 			x.ControlBehavior, x.MaxQueueingTimeMs = hotspot.Throttling, 5
 			if r.Hid == 5 {
 				x.MaxQueueingTimeMs = 7
+			}
+		case 6:
+			// selected by attachment key instead of position (non-blocking variant only: probes carry no attachment)
+			if r.Var == 0 {
+				x.ParamKey = "k"
 			}
 		}
 	}
